@@ -465,3 +465,291 @@ Proof.
   - intros x E. destruct (rch (c_self c)); [discriminate|]. injection E as ->. now left.
   - intros x E. unfold last_error in E. apply in_rev. destruct (rev (rch (c_self c))); [discriminate|]. injection E as ->. now left.
 Qed.
+
+(* ------------------------------------------------------------------ *)
+(* height = depth of the deepest descendant, relative to the node       *)
+(* ------------------------------------------------------------------ *)
+Lemma branch_depth f : forall t anc sibs, chain f anc sibs -> In t sibs -> forall d, In d (pre t) ->
+  exists l sibs', chain f (l ++ anc) sibs' /\ In d sibs' /\ length l <= height t.
+Proof.
+  induction t as [id i ch IH] using rt_ind'. intros anc sibs Hc Ht d Hd.
+  apply pre_cases in Hd as [->|Hd].
+  - exists [], sibs. cbn. split; [assumption|]. split; [assumption|lia].
+  - cbn [rch] in Hd. apply in_flat_map in Hd as (x & Hx & Hd). rewrite Forall_forall in IH.
+    assert (Hc' : chain f (T id i ch :: anc) ch) by (apply (chain_down f (T id i ch) anc sibs); assumption).
+    destruct (IH x Hx _ _ Hc' Hx d Hd) as (l & sibs' & Hl & Hds & Hle).
+    exists (l ++ [T id i ch]), sibs'. rewrite <- app_assoc. cbn [app]. split; [assumption|]. split; [assumption|].
+    rewrite app_length. cbn [length].
+    pose proof (proj1 (proj2 (height_spec (T id i ch))) x Hx). lia.
+Qed.
+
+Lemma deepest f : forall t, exists d l, In d (pre t) /\ length l = height t /\
+  forall anc sibs, chain f anc sibs -> In t sibs -> exists sibs', chain f (l ++ anc) sibs' /\ In d sibs'.
+Proof.
+  induction t as [id i ch IH] using rt_ind'.
+  destruct ch as [|y ch'] eqn:Ech.
+  - exists (T id i []), []. split; [apply pre_in_self|]. split; [reflexivity|]. intros anc sibs Hc Ht. eauto.
+  - rewrite <- Ech in *. assert (Hne : rch (T id i ch) <> []) by (cbn [rch]; rewrite Ech; discriminate).
+    destruct (proj2 (proj2 (height_spec (T id i ch))) Hne) as (x & Hx & Eh). cbn [rch] in Hx.
+    rewrite Forall_forall in IH. destruct (IH x Hx) as (d & l & Hd & El & Hl).
+    exists d, (l ++ [T id i ch]). split; [|split].
+    + rewrite pre_unfold. right. cbn [rch]. apply in_flat_map. eauto.
+    + rewrite app_length. cbn [length]. lia.
+    + intros anc sibs Hc Ht. rewrite <- app_assoc. cbn [app]. apply (Hl (T id i ch :: anc) ch); [|assumption].
+      apply (chain_down f (T id i ch) anc sibs); assumption.
+Qed.
+
+Theorem height_depth f n c : NoDup (ids f) -> locate_f n f = Some c ->
+  (forall m cd, locate_f m f = Some cd -> In (c_self cd) (pre (c_self c)) ->
+     q_depth c <= q_depth cd <= q_depth c + q_height c) /\
+  (exists m cd, locate_f m f = Some cd /\ In (c_self cd) (pre (c_self c)) /\
+     q_depth cd = q_depth c + q_height c).
+Proof.
+  intros H Hc. destruct (locate_f_ok f n c Hc) as [[Hch Hs] _]. split.
+  - intros m cd Hd Hin. destruct (locate_f_ok f m cd Hd) as [_ Em].
+    destruct (branch_depth f _ _ _ Hch Hs _ Hin) as (l & sibs' & Hl & Hds & Hle).
+    assert (Hok' : ctx_ok f (l ++ c_anc c, sibs', c_self cd)) by (split; assumption).
+    pose proof (located_unique f m cd _ H Hd Hok' Em) as E.
+    assert (Ea : c_anc cd = l ++ c_anc c) by (rewrite <- E; reflexivity).
+    unfold q_depth, q_height. rewrite Ea, app_length. lia.
+  - destruct (deepest f (c_self c)) as (d & l & Hd & El & Hl). destruct (Hl _ _ Hch Hs) as (sibs' & Hc' & Hds).
+    assert (Hok' : ctx_ok f (l ++ c_anc c, sibs', d)) by (split; assumption).
+    destruct (locate_f_self f d H (ctx_self_in_pre f _ Hok')) as (cd & Hld & Esd & Hokd).
+    assert (E : cd = (l ++ c_anc c, sibs', d)) by (eapply ctx_unique; eauto; now rewrite Esd).
+    exists (rid d), cd. split; [assumption|]. split; [now rewrite Esd|].
+    assert (Ea : c_anc cd = l ++ c_anc c) by (rewrite E; reflexivity).
+    unfold q_depth, q_height. rewrite Ea, app_length. lia.
+Qed.
+
+Lemma list_max_witness {X} (g : X -> nat) l : l <> [] -> exists x, In x l /\ list_max (map g l) = g x.
+Proof.
+  induction l as [|z l IH]; [congruence|]. intros _. destruct l as [|z' l].
+  - exists z. split; [now left|]. cbn. lia.
+  - destruct (IH ltac:(discriminate)) as (x & Hx & Ex).
+    replace (list_max (map g (z :: z' :: l))) with (Nat.max (g z) (list_max (map g (z' :: l)))) by reflexivity.
+    rewrite Ex. destruct (Nat.le_ge_cases (g z) (g x)) as [Hle|Hge].
+    + exists x. split; [now right|]. lia.
+    + exists z. split; [now left|]. lia.
+Qed.
+
+(* Tree.calc_height = the largest depth of any node (0 for the empty tree) *)
+Theorem tree_height_max_depth f : NoDup (ids f) ->
+  (forall m cd, locate_f m f = Some cd -> q_depth cd <= tree_height f) /\
+  (f <> [] -> exists m cd, locate_f m f = Some cd /\ q_depth cd = tree_height f) /\
+  (f = [] -> tree_height f = 0).
+Proof.
+  intros H. refine (conj _ (conj _ _)).
+  - intros m cd Hd. destruct (locate_f_ok f m cd Hd) as [Hok Em].
+    pose proof (ctx_self_in_pre f cd Hok) as Hp. apply in_flat_map in Hp as (x & Hx & Hp).
+    destruct (branch_depth f x [] f (chain_top f) Hx _ Hp) as (l & sibs' & Hl & Hds & Hle).
+    assert (Hok' : ctx_ok f (l ++ [], sibs', c_self cd)) by (split; assumption).
+    pose proof (located_unique f m cd _ H Hd Hok' Em) as E.
+    assert (Ea : c_anc cd = l) by (rewrite <- E; unfold c_anc; cbn [fst snd]; apply app_nil_r).
+    unfold q_depth. rewrite Ea.
+    assert (height x <= list_max (map height f)) by (apply list_max_ge; now apply in_map).
+    unfold tree_height. destruct f; [contradiction|]. lia.
+  - intros Hne. destruct (list_max_witness height f Hne) as (x & Hx & Ex).
+    destruct (deepest f x) as (d & l & Hd & El & Hl). destruct (Hl [] f (chain_top f) Hx) as (sibs' & Hc' & Hds).
+    assert (Hok' : ctx_ok f (l ++ [], sibs', d)) by (split; assumption).
+    destruct (locate_f_self f d H (ctx_self_in_pre f _ Hok')) as (cd & Hld & Esd & Hokd).
+    assert (E : cd = (l ++ [], sibs', d)) by (eapply ctx_unique; eauto; now rewrite Esd).
+    assert (Ea : c_anc cd = l) by (rewrite E; unfold c_anc; cbn [fst snd]; apply app_nil_r).
+    exists (rid d), cd. split; [assumption|]. unfold q_depth. rewrite Ea. unfold tree_height. destruct f; [contradiction|]. lia.
+  - intros ->. reflexivity.
+Qed.
+
+(* ------------------------------------------------------------------ *)
+(* descendant counts                                                    *)
+(* ------------------------------------------------------------------ *)
+Definition is_leaf_t (t : rt) : bool := match rch t with [] => true | _ => false end.
+
+Lemma count_all_sum l : length (pre_f l) = list_sum (map (fun x => S (length (pre_f (rch x)))) l).
+Proof.
+  induction l as [|x l IH]; [reflexivity|]. cbn [flat_map map list_sum]. rewrite app_length, IH, pre_unfold. reflexivity.
+Qed.
+
+Lemma count_leaves_sum l : length (filter is_leaf_t (pre_f l)) =
+  list_sum (map (fun x => if is_leaf_t x then 1 else length (filter is_leaf_t (pre_f (rch x)))) l).
+Proof.
+  induction l as [|x l IH]; [reflexivity|].
+  change (pre_f (x :: l)) with (pre x ++ pre_f l). rewrite filter_app, app_length, IH.
+  cbn [map list_sum]. f_equal. rewrite pre_unfold. cbn [filter]. destruct (is_leaf_t x) eqn:El; [|reflexivity].
+  unfold is_leaf_t in El. destruct (rch x); [reflexivity|discriminate].
+Qed.
+
+Lemma filter_len_le {X} (p : X -> bool) l : length (filter p l) <= length l.
+Proof. induction l as [|x l IH]; cbn; [lia|]. destruct (p x); cbn; lia. Qed.
+
+Lemma some_leaf : forall t, exists d, In d (pre t) /\ is_leaf_t d = true.
+Proof.
+  induction t as [id i ch IH] using rt_ind'. destruct ch as [|y ch'].
+  - exists (T id i []). split; [apply pre_in_self|reflexivity].
+  - inversion IH as [|? ? Hy _]; subst. destruct Hy as (d & Hd & Hl). exists d. split; [|assumption].
+    rewrite pre_unfold. right. cbn [rch flat_map]. apply in_or_app. now left.
+Qed.
+
+Theorem count_laws c :
+  q_count_desc c false = length (pre_f (rch (c_self c))) /\
+  S (q_count_desc c false) = length (pre (c_self c)) /\
+  (forall cs, map c_self cs = q_children c ->
+     q_count_desc c false = list_sum (map (fun cx => S (q_count_desc cx false)) cs) /\
+     q_count_desc c true = list_sum (map (fun cx => if q_is_leaf cx then 1 else q_count_desc cx true) cs)) /\
+  q_count_desc c true <= q_count_desc c false /\
+  (q_is_leaf c = true -> q_count_desc c true = 0 /\ q_count_desc c false = 0) /\
+  (q_is_leaf c = false -> 1 <= q_count_desc c true) /\
+  q_count_desc c true = length (filter is_leaf_t (pre_f (rch (c_self c)))).
+Proof.
+  assert (E0 : forall d, q_count_desc d false = length (pre_f (rch (c_self d)))).
+  { intros d. unfold q_count_desc. now rewrite filter_true. }
+  assert (E1 : forall d, q_count_desc d true = length (filter is_leaf_t (pre_f (rch (c_self d))))) by reflexivity.
+  refine (conj (E0 c) (conj _ (conj _ (conj _ (conj _ (conj _ (E1 c))))))).
+  - rewrite E0, pre_unfold. reflexivity.
+  - intros cs Hcs. unfold q_children in Hcs. split.
+    + rewrite E0, count_all_sum, <- Hcs, map_map. f_equal. apply map_ext. intros d. now rewrite E0.
+    + rewrite E1, count_leaves_sum, <- Hcs, map_map. reflexivity.
+  - rewrite E0, E1. apply filter_len_le.
+  - unfold q_is_leaf. rewrite E0, E1. destruct (rch (c_self c)); [split; reflexivity|discriminate].
+  - unfold q_is_leaf. rewrite E1. destruct (rch (c_self c)) as [|y l]; [discriminate|]. intros _.
+    destruct (some_leaf y) as (d & Hd & Hl).
+    assert (Hin : In d (filter is_leaf_t (pre_f (y :: l)))).
+    { apply filter_In. split; [|assumption]. cbn [flat_map]. apply in_or_app. now left. }
+    destruct (filter is_leaf_t (pre_f (y :: l))); [contradiction|]. cbn [length]. lia.
+Qed.
+
+(* ------------------------------------------------------------------ *)
+(* path = names of the ancestor chain, top first, joined by "/"         *)
+(* ------------------------------------------------------------------ *)
+Fixpoint join (sep : text) (l : list text) : text :=
+  match l with
+  | [] => []
+  | x :: l' => match l' with [] => x | _ => x ++ sep ++ join sep l' end
+  end.
+
+Lemma flat_map_join (l : list rt) :
+  flat_map (fun t => 47%Z :: node_name t) l = match l with [] => [] | _ => 47%Z :: join [47%Z] (map node_name l) end.
+Proof.
+  induction l as [|x l IH]; [reflexivity|]. cbn [flat_map]. rewrite IH. destruct l as [|y l]; cbn [map join].
+  - now rewrite app_nil_r.
+  - reflexivity.
+Qed.
+
+Theorem path_spec c a : q_path c a = 47%Z :: join [47%Z] (map node_name (q_parent_list c a false)).
+Proof.
+  unfold q_path. destruct (q_parent_list c a false) as [|x l] eqn:E; [reflexivity|].
+  change (fun t : rt => 47%Z :: i_name (rinfo t)) with (fun t : rt => 47%Z :: node_name t).
+  now rewrite flat_map_join.
+Qed.
+
+(* ------------------------------------------------------------------ *)
+(* up(k): composes; up(1) is the parent                                 *)
+(* ------------------------------------------------------------------ *)
+Theorem up_one c : q_up c 1 = Some (q_parent c).
+Proof. unfold q_up, q_parent. destruct (c_anc c); reflexivity. Qed.
+
+Theorem up_compose f n c k p cp j : NoDup (ids f) -> locate_f n f = Some c ->
+  q_up c k = Some (Some p) -> locate_f (rid p) f = Some cp -> 1 <= j ->
+  q_up c (j + k) = q_up cp j.
+Proof.
+  intros H Hc Hk Hp Hj. destruct (locate_f_ok f n c Hc) as [[Hch Hs] _].
+  destruct k as [|k]; [discriminate|]. unfold q_up in Hk.
+  destruct (nth_error (c_anc c) k) as [p'|] eqn:En.
+  2:{ destruct (Nat.eqb k (length (c_anc c))); discriminate. }
+  injection Hk as ->. apply nth_error_split in En as (l & anc' & Ea & El).
+  rewrite Ea in Hch. destruct (chain_suffix f l p anc' _ Hch) as (sibs' & Hc' & Hps).
+  assert (Hok' : ctx_ok f (anc', sibs', p)) by (split; assumption).
+  pose proof (located_unique f (rid p) cp _ H Hp Hok' eq_refl) as E. apply (f_equal c_anc) in E.
+  unfold c_anc at 1 in E; cbn [fst snd] in E.
+  destruct j as [|j]; [lia|]. unfold q_up. cbn [Nat.add]. rewrite <- E, Ea.
+  replace (j + S k) with (length (l ++ [p]) + j) by (rewrite app_length; cbn [length]; lia).
+  replace (l ++ p :: anc') with ((l ++ [p]) ++ anc') by (rewrite <- app_assoc; reflexivity).
+  rewrite nth_error_app2 by lia. replace (length (l ++ [p]) + j - length (l ++ [p])) with j by lia.
+  destruct (nth_error anc' j); [reflexivity|]. rewrite (app_length (l ++ [p]) anc').
+  destruct (Nat.eqb j (length anc')) eqn:Ej.
+  - apply Nat.eqb_eq in Ej. rewrite Ej, Nat.eqb_refl. reflexivity.
+  - apply Nat.eqb_neq in Ej. destruct (Nat.eqb (length (l ++ [p]) + j) (length (l ++ [p]) + length anc')) eqn:Ej'; [|reflexivity].
+    apply Nat.eqb_eq in Ej'. lia.
+Qed.
+
+(* ------------------------------------------------------------------ *)
+(* get_top: THE top-level node whose sub-tree contains the node          *)
+(* ------------------------------------------------------------------ *)
+Lemma top_disjoint f x y n : NoDup (ids f) -> In x f -> In y f -> In n (ids_t x) -> In n (ids_t y) -> x = y.
+Proof.
+  intros H Hx Hy Hnx Hny. apply in_split in Hx as (l1 & l2 & ->). rewrite ids_split in H.
+  destruct (nodup3 _ _ _ H) as (_ & H1 & H2).
+  apply in_app_or in Hy as [Hy|[Hy|Hy]]; [exfalso|now symmetry|exfalso].
+  - apply (H1 n); [|assumption]. apply (ids_t_incl l1 y); [now apply in_pre_f_top|assumption].
+  - apply (H2 n); [assumption|]. apply (ids_t_incl l2 y); [now apply in_pre_f_top|assumption].
+Qed.
+
+Theorem top_unique f n c : NoDup (ids f) -> locate_f n f = Some c ->
+  In (q_top c) f /\ In (c_self c) (pre (q_top c)) /\
+  (forall x, In x f -> In (c_self c) (pre x) -> x = q_top c) /\
+  (q_top c = c_self c <-> q_is_top c = true).
+Proof.
+  intros H Hc. destruct (locate_f_ok f n c Hc) as [Hok _].
+  destruct (top_is_last_ancestor f c Hok) as [Hin Hor].
+  assert (Hpre : In (c_self c) (pre (q_top c))).
+  { apply (aos_iff f c (q_top c) H Hok); [now apply in_pre_f_top|]. destruct Hor as [->|Ha]; [now left|now right]. }
+  refine (conj Hin (conj Hpre (conj _ _))).
+  - intros x Hx Hp. apply (top_disjoint f x (q_top c) (rid (c_self c)) H Hx Hin); unfold ids_t; now apply in_map.
+  - split.
+    + intros E. pose proof (top_level_laws f n c H Hc) as [[P _] _]. rewrite E in Hin. apply P in Hin.
+      unfold q_is_top. unfold q_parent in Hin. now destruct (c_anc c).
+    + unfold q_is_top, q_top. destruct (c_anc c); [reflexivity|discriminate].
+Qed.
+
+(* ------------------------------------------------------------------ *)
+(* previous / next sibling are inverse; index = position                 *)
+(* ------------------------------------------------------------------ *)
+Lemma sibling_ctx f c y : ctx_ok f c -> In y (c_sibs c) -> ctx_ok f (c_anc c, c_sibs c, y).
+Proof. intros [Hc _] Hy. split; assumption. Qed.
+
+Theorem next_prev_inverse f n m c cy : NoDup (ids f) -> locate_f n f = Some c -> locate_f m f = Some cy ->
+  (q_next c = Some (c_self cy) <-> q_prev cy = Some (c_self c)) /\
+  (q_next c = Some (c_self cy) -> q_index cy = option_map S (q_index c) /\ q_parent cy = q_parent c).
+Proof.
+  intros H Hc Hy. destruct (locate_f_ok f n c Hc) as [Hok En]. destruct (locate_f_ok f m cy Hy) as [Hoky Em].
+  destruct (ctx_ok_split f c H Hok) as (l1 & l2 & E & H1 & H2).
+  destruct (ctx_ok_split f cy H Hoky) as (k1 & k2 & Ey & K1 & K2).
+  pose proof (sibling_positions c l1 l2 E H1 H2) as (Pi & Pp & Pn & _).
+  pose proof (sibling_positions cy k1 k2 Ey K1 K2) as (Qi & Qp & Qn & _).
+  assert (Hnd : NoDup (map rid (c_sibs c))) by (destruct Hok as [Hch _]; eapply chain_sibs_nodup; eauto).
+  assert (Fwd : q_next c = Some (c_self cy) -> cy = (c_anc c, c_sibs c, c_self cy) /\ k1 = l1 ++ [c_self c]).
+  { intros Hn. rewrite Pn in Hn. destruct l2 as [|y l2]; [discriminate|]. injection Hn as ->.
+    assert (Hin : In (c_self cy) (c_sibs c)) by (rewrite E; apply in_or_app; right; right; now left).
+    pose proof (located_unique f m cy _ H Hy (sibling_ctx f c _ Hok Hin) Em) as Ec. split; [now symmetry|].
+    assert (Es : c_sibs cy = c_sibs c) by (rewrite <- Ec at 1; reflexivity).
+    rewrite Es, E in Ey. replace (l1 ++ c_self c :: c_self cy :: l2) with ((l1 ++ [c_self c]) ++ c_self cy :: l2) in Ey
+      by (rewrite <- app_assoc; reflexivity).
+    assert (Ei : index_of (rid (c_self cy)) ((l1 ++ [c_self c]) ++ c_self cy :: l2) = Some (length (l1 ++ [c_self c]))).
+    { apply index_of_split; [reflexivity|]. intros x Hx Heq. rewrite E in Hnd.
+      replace (l1 ++ c_self c :: c_self cy :: l2) with ((l1 ++ [c_self c]) ++ c_self cy :: l2) in Hnd
+        by (rewrite <- app_assoc; reflexivity).
+      rewrite map_app in Hnd. cbn [map] in Hnd. eapply (NoDup_app_disj (map rid (l1 ++ [c_self c]))); [exact Hnd| |now left].
+      rewrite <- Heq. now apply in_map. }
+    rewrite Ey in Ei. rewrite (index_of_split _ k1 _ k2 eq_refl K1) in Ei. injection Ei as El.
+    assert (Ef : firstn (length k1) (k1 ++ c_self cy :: k2) = firstn (length k1) ((l1 ++ [c_self c]) ++ c_self cy :: l2)) by now rewrite Ey.
+    rewrite firstn_app_len, El, firstn_app_len in Ef. exact Ef. }
+  split; [split|].
+  - intros Hn. destruct (Fwd Hn) as [_ ->]. rewrite Qp. unfold last_error. now rewrite rev_app_distr.
+  - intros Hpv. rewrite Qp in Hpv.
+    assert (Ek : exists k0, k1 = k0 ++ [c_self c]).
+    { unfold last_error in Hpv. destruct k1 as [|z k1] using rev_ind; [discriminate|]. rewrite rev_app_distr in Hpv.
+      injection Hpv as ->. eauto. }
+    destruct Ek as (k0 & ->).
+    assert (Hin : In (c_self c) (c_sibs cy)) by (rewrite Ey; apply in_or_app; left; apply in_or_app; right; now left).
+    pose proof (located_unique f n c _ H Hc (sibling_ctx f cy _ Hoky Hin) En) as Ec.
+    assert (Es : c_sibs c = c_sibs cy) by (rewrite <- Ec at 1; reflexivity).
+    assert (Hsp : c_sibs c = k0 ++ c_self c :: c_self cy :: k2) by (rewrite Es, Ey, <- app_assoc; reflexivity).
+    assert (Hk0 : forall x, In x k0 -> rid x <> rid (c_self c)).
+    { intros x Hx Heq. rewrite Hsp, map_app in Hnd. cbn [map] in Hnd.
+      eapply (NoDup_app_disj (map rid k0)); [exact Hnd| |now left]. rewrite <- Heq. now apply in_map. }
+    assert (Hk2 : forall x, In x (c_self cy :: k2) -> rid x <> rid (c_self c)).
+    { intros x Hx Heq. rewrite Hsp, map_app in Hnd. apply NoDup_app_r in Hnd. cbn [map] in Hnd.
+      inversion Hnd as [|? ? Hni _]; subst. apply Hni. rewrite <- Heq. change (In (rid x) (map rid (c_self cy :: k2))). now apply in_map. }
+    rewrite (q_next_split c k0 (c_self cy :: k2) Hsp Hk0 Hk2). reflexivity.
+  - intros Hn. destruct (Fwd Hn) as [Ec ->]. split.
+    + rewrite Qi, Pi, app_length. cbn. f_equal. lia.
+    + unfold q_parent. rewrite Ec at 1. reflexivity.
+Qed.
